@@ -151,6 +151,14 @@ type c16Leader struct {
 	D       *c16Data
 	WOpen   bool
 	Tail    []byte // appended to the leader's open writer once a stream reader of the session is open
+	Halt    *c16Halt
+}
+
+// the leader was stopped during this request's transfer (observed): K CONTINUE messages
+// got out, then its handler ended with a FAULT answer or cleanly
+type c16Halt struct {
+	K     int
+	Fault bool
 }
 
 // the leader's contents once the tail has arrived
@@ -179,7 +187,11 @@ func (l c16Leader) String() string {
 		}
 		ids = strings.Join(p, ",")
 	}
-	return fmt.Sprintf("%s:%s:%s:%s:%s:%s:%s", c16B(l.Serving), c16B(l.Started), ids, c16Id(l.Cur), l.D.String(), c16B(l.WOpen), vfutil.Hex(l.Tail))
+	halt := "-"
+	if l.Halt != nil {
+		halt = fmt.Sprintf("%d,%s", l.Halt.K, c16B(l.Halt.Fault))
+	}
+	return fmt.Sprintf("%s:%s:%s:%s:%s:%s:%s:%s", c16B(l.Serving), c16B(l.Started), ids, c16Id(l.Cur), l.D.String(), c16B(l.WOpen), vfutil.Hex(l.Tail), halt)
 }
 
 func c16ParseLeader(s string) c16Leader {
@@ -190,10 +202,18 @@ func c16ParseLeader(s string) c16Leader {
 	if len(f) == 6 {
 		f = append([]string{"1"}, f...)
 	}
-	if len(f) != 7 {
+	if len(f) == 7 {
+		f = append(f, "-")
+	}
+	if len(f) != 8 {
 		panic("bad leader spec " + s)
 	}
 	l := c16Leader{Serving: f[0] == "1", Started: f[1] == "1", Cur: c16UnId(f[3]), D: c16ParseData(f[4]), WOpen: f[5] == "1", Tail: vfutil.UnHex(f[6])}
+	if f[7] != "-" {
+		q := strings.Split(f[7], ",")
+		k, _ := strconv.Atoi(q[0])
+		l.Halt = &c16Halt{K: k, Fault: len(q) > 1 && q[1] == "1"}
+	}
 	if f[2] != "." {
 		for _, x := range strings.Split(f[2], ",") {
 			l.Ids = append(l.Ids, c16UnId(x))
@@ -210,6 +230,7 @@ type c16Round struct {
 	Split   int         // >0: CONTINUE messages are re-chunked into pieces of 1..Split bytes
 	Quiet   bool        // the cut happens when the follower has persisted everything it received
 	Restart bool        // (disk) the follower process is restarted before this session
+	Stop    int         // >0: the leader is stopped (its syncer's wait closed) once that many CONTINUE messages of a transfer are out
 }
 
 func (r c16Round) view(n int) [4]int {
@@ -252,7 +273,7 @@ func (r c16Round) viewsString() string {
 }
 
 func (r c16Round) String() string {
-	return fmt.Sprintf("%s@%s@%d@%d@%s@%s", r.lsString(), r.viewsString(), r.Cut, r.Split, c16B(r.Quiet), c16B(r.Restart))
+	return fmt.Sprintf("%s@%s@%d@%d@%s@%s@%d", r.lsString(), r.viewsString(), r.Cut, r.Split, c16B(r.Quiet), c16B(r.Restart), r.Stop)
 }
 
 func c16ParseRound(rs string) (r c16Round, err error) {
@@ -260,9 +281,13 @@ func c16ParseRound(rs string) (r c16Round, err error) {
 	if len(q) == 5 { // older corpus lines: one static leader
 		q = append([]string{q[0], "."}, q[1:]...)
 	}
-	if len(q) != 6 {
+	if len(q) == 6 {
+		q = append(q, "0")
+	}
+	if len(q) != 7 {
 		return r, fmt.Errorf("bad round %q", rs)
 	}
+	r.Stop, _ = strconv.Atoi(q[6])
 	for _, ls := range strings.Split(q[0], ";") {
 		r.Ls = append(r.Ls, c16ParseLeader(ls))
 	}
@@ -455,7 +480,7 @@ func c16FillW(ch Channel, d *c16Data, keepOpen bool) (closeFn func(), appendFn f
 		}
 		// (the writer's own counter runs ahead of the data set's: wait for what readers see)
 		latest := func() int64 { sp, _ := ch.StartPoint(nil); return sp.Offset }
-		c16Wait(func() bool { return latest() == d.right() }, 3*time.Second)
+		c16Wait(func() bool { return latest() == d.right() }, c16Patience)
 		if latest() != d.right() {
 			return closeFn, appendFn, fmt.Errorf("fill aof: right %d want %d", latest(), d.right())
 		}
@@ -463,7 +488,7 @@ func c16FillW(ch Channel, d *c16Data, keepOpen bool) (closeFn func(), appendFn f
 		appendFn = func(b []byte) error {
 			want := latest() + int64(len(b))
 			pw.Write(b)
-			if !c16Wait(func() bool { return latest() == want }, 3*time.Second) {
+			if !c16Wait(func() bool { return latest() == want }, c16Patience) {
 				return fmt.Errorf("append: right %d want %d", latest(), want)
 			}
 			return nil
@@ -512,6 +537,10 @@ func c16BuildFollower(bk, dir string, logSize int64, st c16Store) (Channel, erro
 // ---------------------------------------------------------------- observation
 
 var c16ErrRead = errors.New("read")
+
+// hard limit of every wait for the code under test to reach a state it must reach; the
+// waits end as soon as the condition holds, the limit only bounds a hang
+const c16Patience = 120 * time.Second
 
 func c16Wait(cond func() bool, max time.Duration) bool {
 	dl := time.Now().Add(max)
@@ -581,7 +610,7 @@ func c16ReadAt(ch Channel, id string, off int64, n int) (buf []byte, isAof bool,
 	got := 0
 	for got < n {
 		var k int
-		k, isAof, err = c16ReadOnce(ch, id, off+int64(got), buf[got:], 2*time.Second)
+		k, isAof, err = c16ReadOnce(ch, id, off+int64(got), buf[got:], 30*time.Second)
 		got += k
 		if err == nil {
 			break
@@ -856,6 +885,12 @@ type c16Sess struct {
 	aofBytes int64
 	lright   int64
 	tail     []byte
+	contRPC  int  // CONTINUE messages sent in the current request
+	faultRPC bool // a FAULT was sent in the current request
+	stopped  bool // the leader was stopped (round.Stop) …
+	stopRPC  int  // … during this request
+	halts    map[int]*c16Halt // per request from the stop on: what still got out
+	unquiet  bool // a quiescent cut could not be awaited within the limit
 }
 
 func (ss *c16Sess) hook(point int) {
@@ -865,12 +900,19 @@ func (ss *c16Sess) hook(point int) {
 	ss.rt.moveTo(ss.round.view(n)[point])
 }
 
+// a quiescent cut: the transport fails only after the follower has persisted everything
+// that was sent (explicit condition; the limit only bounds a hang and then the cut counts
+// as abrupt)
 func (ss *c16Sess) quiesce() {
 	ss.mu.Lock()
 	on, want := ss.round.Quiet && ss.aofOn && ss.aofBytes > 0, ss.aofStart+ss.aofBytes
 	ss.mu.Unlock()
-	if on { // the follower has persisted everything that was sent
-		c16Wait(func() bool { _, r := ss.fch.GetOffsetRange(ss.fch.RunId()); return r >= want }, time.Second)
+	if on {
+		if !c16Wait(func() bool { _, r := ss.fch.GetOffsetRange(ss.fch.RunId()); return r >= want }, c16Patience) {
+			ss.mu.Lock()
+			ss.unquiet = true
+			ss.mu.Unlock()
+		}
 	}
 }
 
@@ -901,14 +943,35 @@ func (w *c16Srv) push(m *pb.SyncResponse) error {
 		ss.aofOn = true
 		ss.aofStart, ss.aofBytes = m.GetOffset(), 0
 	}
+	stopNow := false
+	switch m.GetCode() {
+	case pb.SyncResponse_CONTINUE:
+		ss.contRPC++
+		if ss.round.Stop > 0 && !ss.stopped && ss.contRPC == ss.round.Stop {
+			ss.stopped, ss.stopRPC, stopNow = true, ss.rpc, true
+		}
+	case pb.SyncResponse_FAULT:
+		ss.faultRPC = true
+	}
+	if ss.stopped {
+		if ss.halts == nil {
+			ss.halts = map[int]*c16Halt{}
+		}
+		ss.halts[ss.rpc] = &c16Halt{K: ss.contRPC, Fault: ss.faultRPC}
+	}
 	ss.mu.Unlock()
 	if err := w.ApiService_SyncServer.Send(m); err != nil {
 		return err
+	}
+	if stopNow {
+		// the leader steps down / is stopped: runLeader closes the wait every handler runs under
+		ss.rt.sy.wait.Close(nil)
 	}
 	ss.mu.Lock()
 	done := ss.aofOn && ss.aofStart+ss.aofBytes >= ss.lright
 	if done {
 		ss.cutOn, ss.complete = true, true
+		ss.stopped = false // everything was out before the stop took effect
 	}
 	ss.mu.Unlock()
 	if done {
@@ -966,6 +1029,7 @@ func (ss *c16Sess) serve(req *pb.SyncRequest, stream pb.ApiService_SyncServer) e
 	ss.mu.Lock()
 	ss.rpc++
 	ss.runIds, ss.sentRPC, ss.firstRPC, ss.aofOn = 0, 0, nil, false
+	ss.contRPC, ss.faultRPC = 0, false
 	rid := req.GetNode().GetRunId()
 	if rid != "" && rid != "?" {
 		ss.metas++
@@ -1260,7 +1324,7 @@ func (f *c16Follower) await() (ended bool, runErr error, ok bool) {
 		return false, nil, true
 	case e := <-f.done:
 		return true, e, true
-	case <-time.After(20 * time.Second):
+	case <-time.After(c16Patience):
 		return false, nil, false
 	}
 }
@@ -1439,7 +1503,37 @@ func (x *c16Ctx) runCase(t *testing.T, srv *c16Server, c c16Case, src string) (u
 			}
 			ch = strings.Join(p, ",")
 		}
-		op := fmt.Sprintf("sess %s %s %s %s %s %d %d %d", c.Bk, r.lsString(), r.viewsString(), before.String(), ch, res.cutModel, res.lost, c16Fuel)
+		// the leader was stopped during a transfer: that request read a leader that halts (observed:
+		// how many CONTINUE messages still got out, whether its handler answered FAULT)
+		rm := r
+		ss.mu.Lock()
+		if ss.stopped {
+			var views [][4]int
+			for i := 0; i < ss.rpc; i++ {
+				views = append(views, r.view(i))
+			}
+			rm.Ls = append([]c16Leader(nil), r.Ls...)
+			fault := false
+			for n := ss.stopRPC - 1; n < ss.rpc; n++ {
+				h := ss.halts[n+1]
+				if h == nil {
+					h = &c16Halt{} // a request after the stop: nothing gets out any more
+				}
+				hl := r.Ls[views[n][3]]
+				hl.Halt = h
+				rm.Ls = append(rm.Ls, hl)
+				views[n][3] = len(rm.Ls) - 1
+				fault = fault || h.Fault
+			}
+			rm.Views = views
+			s.Count("leader_stopped_mid_transfer")
+			if fault {
+				s.Count("leader_stopped_fault")
+			}
+		}
+		unquiet := ss.unquiet
+		ss.mu.Unlock()
+		op := fmt.Sprintf("sess %s %s %s %s %s %d %d %d", c.Bk, rm.lsString(), rm.viewsString(), before.String(), ch, res.cutModel, res.lost, c16Fuel)
 		var out []string
 		for _, m := range res.msgs {
 			out = append(out, c16MsgLine(m))
@@ -1456,8 +1550,9 @@ func (x *c16Ctx) runCase(t *testing.T, srv *c16Server, c c16Case, src string) (u
 		}
 		l0 := r.Ls[0]
 		fd, _ := before.get(l0.Cur)
-		sameId := r.static() && l0.Serving && l0.Started && len(l0.Ids) > 0 && l0.Ids[0] == l0.Cur && fd != nil &&
+		sameId0 := l0.Serving && l0.Started && len(l0.Ids) > 0 && l0.Ids[0] == l0.Cur && fd != nil &&
 			(c.Bk == "d" || before.Cur == l0.Cur)
+		sameId := sameId0 && r.static()
 		lr := int64(-1)
 		if l0.D != nil {
 			lr = l0.D.right()
@@ -1470,8 +1565,14 @@ func (x *c16Ctx) runCase(t *testing.T, srv *c16Server, c c16Case, src string) (u
 					l0.Cur, fd.right(), lr, res.stage, res.cls, after.String()), replay)
 			}
 		}
-		if r.Quiet && res.lost != 0 {
-			s.Violate("lost-bytes-when-quiescent", fmt.Sprintf("%d received bytes were not stored although the follower had time to persist them", res.lost), replay)
+		if unquiet {
+			s.Count("quiescent_cut_not_awaited") // counted as an abrupt cut
+		} else if r.Quiet && res.lost != 0 {
+			// the cut was made only after the follower's channel reported every sent byte as stored
+			s.Violate("lost-bytes-when-quiescent", fmt.Sprintf("%d bytes the follower had already stored are gone after the cut", res.lost), replay)
+		}
+		if sameId0 && fd.right() > lr && res.cls == "clear" {
+			s.Count("ahead_answered_clear") // the copy is deleted, see clear_deletes_any
 		}
 		if res.lost > 0 {
 			s.Count("cut_lost_bytes")
@@ -1922,8 +2023,28 @@ func TestVerifC16(t *testing.T) {
 	close(jobs)
 	wg.Wait()
 
-	// a class of states that can no longer be built must not disappear silently
-	s.Stats["sessions"] += 0
+	// transfers larger than the follower's pipe (512 KiB stream) cut abruptly in the middle,
+	// then continued: whatever was in flight is lost, never misplaced
+	for i := 0; i < vfutil.Scale(2, 6); i++ {
+		fr := r.Fork()
+		c := c16Case{Bk: []string{"d", "m"}[i%2], LogSize: 1 << 20, Seed: fr.U64() >> 1}
+		base := int64(fr.Range(1, 5000))
+		right := base + int64(fr.Range(1100, 1500))*1024
+		l := c16Leader{Serving: true, Started: true, Ids: []string{"idA"}, Cur: "idA", WOpen: true, D: c16MkData("idA", base, right, false)}
+		if fr.Bool() {
+			c.F = c16Store{Cur: "idA", Dirs: []c16Entry{{"idA", c16MkData("idA", base, base+int64(fr.Range(1, 3000)), false)}}}
+		}
+		c.Rounds = []c16Round{
+			{Ls: []c16Leader{l}, Cut: fr.Range(150, 250), Quiet: false},
+			{Ls: []c16Leader{l}, Cut: -1, Quiet: true},
+		}
+		x.runCase(t, srv0, c, "big")
+		s.Count("big_transfer")
+	}
+
+	// infrastructure / coverage conditions are not verdicts about the property: too many cases
+	// that could not be built fail the harness (the check reports a broken tie), classes
+	// that did not occur are evidence counters
 	skips := 0
 	for k, v := range s.Stats {
 		if strings.HasPrefix(k, "skip_") {
@@ -1931,13 +2052,15 @@ func TestVerifC16(t *testing.T) {
 		}
 	}
 	if skips*50 > s.Stats["sessions"] {
-		s.Violate("harness-skips", fmt.Sprintf("%d cases could not be built or did not end (sessions run: %d): %v", skips, s.Stats["sessions"], s.Stats),
-			map[string]interface{}{"skips": skips})
+		t.Errorf("c16 harness: %d cases could not be built or did not end (sessions run: %d): %v", skips, s.Stats["sessions"], s.Stats)
 	}
 	for _, k := range []string{"rel_prefix", "rel_equal", "rel_ahead", "rel_collected", "rel_collected-snap", "rel_far-behind", "rel_otherid-within",
-		"rel_leader-empty", "dynamic_leader", "end_meta_takeover", "end_meta_error", "end_rdb_cut", "end_aof_cut", "msg_CLEAR", "msg_FAILURE"} {
-		if pairs >= 70 && s.Stats[k] == 0 {
-			s.Violate("harness-class-missing", "no session of class "+k, map[string]interface{}{"class": k})
+		"rel_leader-empty", "dynamic_leader", "end_meta_takeover", "end_meta_error", "end_rdb_cut", "end_aof_cut", "end_aof_eof", "end_rdb_eof",
+		"msg_CLEAR", "msg_FAILURE", "msg_FAULT", "ahead_answered_clear", "big_transfer"} {
+		if s.Stats[k] == 0 {
+			s.Count("class_not_generated_" + k)
+			s.Stats["class_not_generated_"+k] = 1
+			t.Logf("c16 harness: no session of class %s in this run", k)
 		}
 	}
 }
@@ -1982,6 +2105,34 @@ func (x *c16Ctx) family(t *testing.T, srv *c16Server, c c16Case, r *vfutil.Rand,
 			}
 		}
 		x.runCase(t, srv, cc, "cut")
+	}
+	// the leader is stopped / steps down in the middle of a transfer (runLeader closes the wait
+	// of every running handler: clean end of stream, or FAULT when its reader is closed first)
+	for i := 0; i < 2; i++ {
+		cc := c
+		r0 := c.Rounds[0]
+		r0.Cut, r0.Quiet = -1, true
+		r0.Stop = 1 + r.Intn(4)
+		r0.Split = vfutil.Pick(r, []int{1, 2, 7, 40})
+		cc.Rounds = []c16Round{r0}
+		if r.Chance(1, 2) { // … and the follower goes on with the next leader
+			cc.Rounds = append(cc.Rounds, c16Round{Ls: []c16Leader{c16Evolve(r, r0.Ls[0])}, Cut: -1, Quiet: true})
+		}
+		x.runCase(t, srv, cc, "stop")
+	}
+	// a follower that is ahead meets a leader whose input has meanwhile moved to another run
+	// id ("wait a moment" = CLEAR comes before the ahead test)
+	if l0 := c.Rounds[0].Ls[0]; c16Relation(c.F, l0) == "ahead" && l0.Cur != "" {
+		other := "idC"
+		if l0.Cur == "idC" {
+			other = "idB"
+		}
+		s1 := l0
+		s1.Tail = nil
+		s1.Ids = []string{other, l0.Cur}
+		cc := c
+		cc.Rounds = []c16Round{{Ls: []c16Leader{l0, s1}, Views: [][4]int{{}, {1, 1, 1, 1}}, Cut: -1, Quiet: true}}
+		x.runCase(t, srv, cc, "aheadclear")
 	}
 	// the leader's own input acts during the session
 	for i := 0; i < 2; i++ {
